@@ -57,8 +57,13 @@ type LinearState struct {
 	remHook RemHookFn
 }
 
-func (s *LinearState) withPrivilege(ctx *Context) {
-	ctx.grantPrivilege("hook")
+// withPrivilege returns a copy of the given context that may
+// access the state without taking its lock (see
+// IndexedState.withPrivilege).
+func (s *LinearState) withPrivilege(ctx *Context) *Context {
+	sub := ctx.SubContext()
+	sub.grantPrivilege("hook")
+	return sub
 }
 
 func (s *LinearState) withoutPrivilege(ctx *Context) {
@@ -459,23 +464,49 @@ func (s *LinearState) FindCachedRules(ctx *Context, event Map) (map[string]*Rule
 	return acc, nil
 }
 
+// remHooks runs the rem hook for every fact (as IndexedState does
+// before it forgets its facts).
+//
+// Assumes we have the write lock: the hook gets the fact with a
+// privileged context.
+func (s *LinearState) remHooks(ctx *Context) error {
+	if s.remHook != nil {
+		hctx := s.withPrivilege(ctx)
+		defer s.withoutPrivilege(hctx)
+		for id := range s.Facts {
+			if err := s.remHook(hctx, s, id); err != nil {
+				Log(ERROR, ctx, "LinearState.remHooks", "state", s.Name, "error", err,
+					"id", id, "when", "remHook")
+				return err
+			}
+		}
+	}
+	return nil
+}
+
 func (s *LinearState) Clear(ctx *Context) error {
 	Log(INFO, ctx, "LinearState.Clear", "name", s.Name)
 	s.slock(ctx, false)
+	defer s.sunlock(ctx, false)
+	if err := s.remHooks(ctx); err != nil {
+		return err
+	}
 	_, err := s.store.Clear(ctx, s.Name)
 	s.Facts = make(map[string]RawFact)
 	s.uncacheRules()
-	s.sunlock(ctx, false)
 	return err
 }
 
 func (s *LinearState) Delete(ctx *Context) error {
 	Log(DEBUG, ctx, "LinearState.Delete", "name", s.Name)
 	s.slock(ctx, false)
+	defer s.sunlock(ctx, false)
+	if err := s.remHooks(ctx); err != nil {
+		return err
+	}
 	err := s.store.Delete(ctx, s.Name)
 	s.Facts = make(map[string]RawFact)
 	s.uncacheRules()
-	s.sunlock(ctx, false)
 	return err
 }
 
